@@ -479,6 +479,20 @@ def family_kinds():
           'struct consumed by value and through an interface bound to its pointer form (value-receiver method), order %d' % order)
     S([Node(FUNC, deps=[(1, 'val')]), Node(BIND, target=2, valrecv=True), Node(WSTRUCT, deps=[(3, 'val')], extra_fields=1), Node(FUNC)], (0, 'val'),
       'interface bound to the pointer form of a struct provider whose method has a value receiver')
+    # an injector that calls nothing and returns one of its arguments through a binding, while other arguments
+    # also implement the interface (the bound one must be returned, whatever its position)
+    for bound in (0, 1, 2):
+        tys = ['English', '*French', 'German']
+        files = {
+            'providers.go': ('package {PKG}\n\ntype Greeter interface{ VID() int }\ntype English struct{ ID int }\ntype French struct{ ID int }\ntype German struct{ ID int }\n'
+                             'func (x English) VID() int { return x.ID }\nfunc (x *French) VID() int { return x.ID }\nfunc (x German) VID() int { return x.ID }\n'),
+            'wire.go': ('//go:build wireinject\n// +build wireinject\n\npackage {PKG}\n\nimport "github.com/google/wire"\n\n'
+                        'func Inject(en English, fr *French, de German) Greeter {\n\tpanic(wire.Build(wire.Bind(new(Greeter), new(%s))))\n}\n' % tys[bound]),
+            'zz_driver.go': ('//go:build !wireinject\n// +build !wireinject\n\npackage {PKG}\n\nimport "example.com/corpus/vrt"\n\nfunc VDrive() {\n'
+                             '\tbase := vrt.ArgID("base")\n\ta, b, c := base, base+1, base+2\n\tg := Inject(English{ID: a}, &French{ID: b}, German{ID: c})\n'
+                             '\tvrt.A("C11,C02", g.VID() == []int{a, b, c}[%d], "an injector that returns a bound interface returns the argument the binding names, not another argument that implements it")\n\tvrt.Cover("bound-arg-returned")\n}\n' % bound),
+        }
+        specs.append(RawSpec(files, 'injector without calls returning the interface bound to its argument number %d of three that all implement it' % (bound + 1), family='kinds'))
     # struct provider is the result itself (both forms)
     for sform in ('val', 'ptr'):
         S([Node(WSTRUCT, deps=[(1, 'val'), (2, 'ptr')], extra_fields=1, prevented=1), Node(FUNC, has_err=True), Node(FUNC, ptr=True, has_cleanup=True)],
@@ -820,6 +834,23 @@ def family_values():
         }
         specs.append(RawSpec(files, 'rejected value form: written in another package, ' + lab, expect='reject', reject_props=['C13'], family='values',
                              extra_pkgs={'q': {'q.go': 'package q\n\nimport "github.com/google/wire"\n\n%s\nvar Set = wire.NewSet(wire.Value(%s))\n' % (qd, item[len('wire.Value('):-1])}}))
+    # an expression written in another package whose variables have namesakes in the injector's package: the copy
+    # must refer to the home package's variables (silent if it does not: it still compiles)
+    files = {
+        'providers.go': 'package {PKG}\n\ntype conf struct {\n\tName string\n\tPort int\n}\n\nvar Cfg = conf{"app", 1}\nvar Ports = []int{1, 2, 3}\nvar Table = map[string]int{"k": 1}\n',
+        'wire.go': ('//go:build wireinject\n// +build wireinject\n\npackage {PKG}\n\nimport (\n\t"github.com/google/wire"\n\t"example.com/corpus/{PKG}/q"\n)\n\n'
+                    'func InjectPort() int {\n\tpanic(wire.Build(q.SetPort))\n}\n\nfunc InjectName() q.Name {\n\tpanic(wire.Build(q.SetName))\n}\n\nfunc InjectElem() int8 {\n\tpanic(wire.Build(q.SetElem))\n}\n\nfunc InjectEntry() int16 {\n\tpanic(wire.Build(q.SetEntry))\n}\n'),
+        'zz_driver.go': ('//go:build !wireinject\n// +build !wireinject\n\npackage {PKG}\n\nimport (\n\t"example.com/corpus/vrt"\n\t"example.com/corpus/{PKG}/q"\n)\n\nfunc VDrive() {\n'
+                         '\tvrt.A("C13", InjectPort() == q.Cfg.Port && InjectPort() != Cfg.Port, "a field selected from a variable of the home package (a namesake exists in the injector\'s package)")\n'
+                         '\tvrt.A("C13", InjectName() == q.Name(q.Cfg.Name), "a conversion of a field selected from a variable of the home package")\n'
+                         '\tvrt.A("C13", InjectElem() == int8(q.Ports[1]), "an element of a slice variable of the home package")\n'
+                         '\tvrt.A("C13", InjectEntry() == int16(q.Table["k"]), "an entry of a map variable of the home package")\n\tvrt.Cover("values-checked")\n}\n'),
+    }
+    qsrc = ('package q\n\nimport (\n\t"example.com/corpus/vrt"\n\t"github.com/google/wire"\n)\n\ntype Name string\n\ntype Conf struct {\n\tName string\n\tPort int\n}\n\nvar Base = vrt.ArgID("base")\n\n'
+            'var Cfg = Conf{"bar", Base + 8080}\nvar Ports = []int{70, 80, 90}\nvar Table = map[string]int{"k": 500}\n\n'
+            'var SetPort = wire.NewSet(wire.Value(Cfg.Port))\nvar SetName = wire.NewSet(wire.Value(Name(Cfg.Name)))\nvar SetElem = wire.NewSet(wire.Value(int8(Ports[1])))\nvar SetEntry = wire.NewSet(wire.Value(int16(Table["k"])))\n')
+    specs.append(RawSpec(files, 'values written in another package from variables that have namesakes in the injector\'s package (selector, conversion, index, map entry)', family='values',
+                         extra_pkgs={'q': {'q.go': qsrc}}))
     # ... and the accessible counterparts (exported field / method value of an exported variable) are accepted
     files = {
         'providers.go': 'package {PKG}\n',
@@ -861,6 +892,8 @@ def family_reject():
         (['C08'], 'two inline sets, one of them unused', 'A', 'wire.NewSet(NewA), wire.NewSet(NewC)'),
         (['C08'], 'unused field provider', 'A', 'NewA, wire.Value(S{}), wire.FieldsOf(new(S), "Name")'),
         (['C09'], 'provider without results', 'A', 'NewA, NoResult'),
+        (['C09', 'C20'], 'injector without results', '', 'NewA'),
+        (['C09', 'C20'], 'injector without results and with a parameter', '', 'NewB', 'a A'),
         # the same source reached twice / sibling sets, through every way the front end merges sets
         (['C05'], 'the same set twice in one call', 'B', 'SetA, SetA, NewB'),
         (['C05'], 'a set and an alias variable of it', 'B', 'SetA, SetAlias, NewB'),
@@ -984,6 +1017,7 @@ def family_packages():
                  'prod/config': {'config.go': cfg(1)}, 'staging/config': {'config.go': cfg(2)}}
         specs.append(RawSpec(files, 'two injectors using equally named providers from two packages both named config (via %s)' % ('provider sets' if use_set else 'functions'),
                              family='packages', extra_pkgs=extra))
+        specs[-1].extra_props = ['C14']
     # ... and one injector that uses equally named sets of both packages at once (they provide different types)
     def store(node, ty):
         return ('package store\n\nimport (\n\t"example.com/corpus/vrt"\n\t"github.com/google/wire"\n)\n\ntype %s struct{ ID int }\n\n'
@@ -999,6 +1033,7 @@ def family_packages():
     }
     specs.append(RawSpec(files, 'one injector using equally named sets (and functions) of two packages both named store', family='packages',
                          extra_pkgs={'primary/store': {'store.go': store(1, 'Primary')}, 'replica/store': {'store.go': store(2, 'Replica')}}))
+    specs[-1].extra_props = ['C14']
     # ... a set that is ambiguous together with a direct provider, while an equally named set of an equally named
     # package (analysed first) is not (C05); and an ill-formed provider behind the name of a well-formed one (C09)
     files = {
